@@ -19,7 +19,6 @@ import (
 	"encoding/json"
 	"fmt"
 	"math/big"
-	"os"
 	"strings"
 
 	"github.com/ontio/ontology/common"
@@ -213,7 +212,9 @@ func (w *world) oracle(in *blockInput, blk *types.Block, obs []*txObs, notifies 
 	failedWrites := map[string]int{}
 	for i, tx := range blk.Transactions {
 		o, n := obs[i], notifies[i]
-		in.Failed = i
+		cur := *in // each reported failure keeps its own transaction index
+		cur.Failed = i
+		in := &cur
 		d := in.Txs[i]
 		// the real execution and the observed walk must tell the same story
 		if n.State != o.Walk.State || n.GasConsumed != o.Walk.GasConsumed || len(n.Notify) != len(o.Walk.Notify) {
@@ -238,13 +239,6 @@ func (w *world) oracle(in *blockInput, blk *types.Block, obs []*txObs, notifies 
 			}
 			if n.State == event.CONTRACT_STATE_FAIL && o.Probe != nil && len(o.Probe.Cache) > 0 {
 				c.Count("composite:failed-after-writes")
-			}
-			if o.Probe != nil && os.Getenv("C05_DEBUG") != "" {
-				e := o.Probe.Err
-				if len(e) > 90 {
-					e = e[:90]
-				}
-				c.Count("dbg:" + d.Code + " => " + e)
 			}
 		}
 		// (0) an execution writes only into the transaction cache: nothing may reach the block
